@@ -513,8 +513,8 @@ pub fn property() -> Property {
             "string literals use an alphabet disjoint from fact names (the engine documents that a string naming a fact is read as that fact)".into(),
         ],
         parts: vec![
-            Part { name: "parser", run, quick: Budget::Random { cases: 10_000, bytes: 1500 }, thorough: Budget::Random { cases: 300_000, bytes: 1500 }, min_nontrivial_pct: 30 },
-            Part { name: "api", run: run_api, quick: Budget::Random { cases: 200_000, bytes: 1500 }, thorough: Budget::Random { cases: 5_000_000, bytes: 1500 }, min_nontrivial_pct: 30 },
+            Part { name: "parser", run, quick: Budget::Random { cases: 30_000, bytes: 1500 }, thorough: Budget::Random { cases: 300_000, bytes: 1500 }, min_nontrivial_pct: 30 },
+            Part { name: "api", run: run_api, quick: Budget::Random { cases: 1_000_000, bytes: 1500 }, thorough: Budget::Random { cases: 5_000_000, bytes: 1500 }, min_nontrivial_pct: 30 },
             Part { name: "sweep", run: run_sweep_api, quick: Budget::Exhaustive { param: 1 }, thorough: Budget::Exhaustive { param: 1 }, min_nontrivial_pct: 0 },
             Part { name: "sweep-parser", run: run_sweep, quick: Budget::Skip, thorough: Budget::Exhaustive { param: 1 }, min_nontrivial_pct: 0 },
         ],
